@@ -115,7 +115,7 @@ def jobs_c01_front(tier, seed):
 
 
 def jobs_c01(tier, seed):
-    return props_pipe.c01_pipe_jobs(tier, seed) + jobs_c01_front(tier, seed)
+    return props_pipe.c01_pipe_jobs(tier, seed) + props_time.c01_to_value_jobs(tier) + jobs_c01_front(tier, seed)
 
 
 def jobs_pipe(prop):
